@@ -14,10 +14,10 @@ COMMON_NOTE = ("Trusted base: the pyvc VC generator (its interpreter is cross-ch
                "the Python semantics listed in DESIGN.md 2.3 (ints exact; floats as exact reals validated on the 0.1 grid; UTF-8 bijection), ")
 
 CLAIMS = {
-    "C01": ("proof", "Step contracts of the send path proved on the real socket.py for all states satisfying the connection invariant, with interference at every await: enqueue = unexpired old entries ++ [new entry] (for every queue length: loop contract over an SMT sequence, discharged by cvc5; small lengths additionally enumerated with native replays, labelled bounded), send_with_header stores these very header/message objects, send builds the header from the encoder's size, each drain iteration writes exactly the popped head entry's frame, _write hands header, payload and CRC to the writer back-to-back in one atomic segment or writes nothing. The induction from these steps to 'exactly once, in order' (FIFO lemma) is on paper.",
-            "asyncio StreamWriter/loop contracts (write keeps call order; time advances only at awaits); codecs behave as their contracts allow (stub registry); FIFO induction over the step contracts is not machine-checked; the enumerated queue lengths 0..11 are a bounded companion of the any-length proof (they give natively replayable counterexamples)."),
+    "C01": ("proof", "Step contracts of the send path proved on the real socket.py for all states satisfying the connection invariant, with interference at every await: enqueue = unexpired old entries ++ [new entry] (for every queue length: loop contract over an SMT sequence, discharged by cvc5; small lengths additionally enumerated with native replays, labelled bounded), send_with_header stores these very header/message objects, send builds the header from the encoder's size, each drain iteration writes exactly the popped head entry's frame, _write hands header, payload and CRC to the writer back-to-back in one atomic segment or writes nothing. The induction from these steps to the history statement is mechanised: lemmas/Fifo.lean (Lean 4; one constructor per step contract, ghost tickets) proves that without write faults the frames on the wire carry strictly increasing acceptance tickets and that under any faults every accepted message is on the wire, pending, or was dropped by a step whose contract names the reason; ./check re-runs the Lean kernel when every step contract it rests on is discharged.",
+            "asyncio StreamWriter/loop contracts (write keeps call order; time advances only at awaits); codecs behave as their contracts allow (stub registry); the Lean lemma is a statement over the step contracts (it is tied to the code only through the discharged obligations named in lemmas/hypotheses.json and a syntactic frame check of socket.py); 'as soon as a connection exists' (liveness) is not proved; the enumerated queue lengths 0..11 are a bounded companion of the any-length proof (they give natively replayable counterexamples)."),
     "C02": ("proof", "Retry discipline as postconditions of the real drain loop body (re-queue at head with one retry less and the same header/message/expiry, drop at zero, expiry test and write at the same loop time, no write without a connection), the policy constants, and for every public command of both API generations the policy handed to socket.send (toggle => RETRY_NON_IDEMPOTENT, absolute settings => RETRY_IDEMPOTENT, heartbeat/error-info/refresh => RETRY_CONNECTED), over all enum arguments and ability records.",
-            "loop clock semantics (time does not advance inside an atomic segment); socket.send contract at the API boundary; 'at most 1+max_retries transmissions' follows from the handler contract by the on-paper FIFO lemma."),
+            "loop clock semantics (time does not advance inside an atomic segment); socket.send contract at the API boundary; 'at most 1 + max_retries transmissions' and 'non-idempotent at most once' follow from the handler contracts by lemmas/Fifo.lean (c02_bounded_transmissions, c02_non_idempotent_once; Lean 4, re-checked each run)."),
     "C03": ("proof", "For every message class of both generations: announced size == bytes produced and decode(encode(m)) == m with nothing left over, for all field values of the protocol domain (records fully symbolic, repeat counts 0..16 enumerated = the property's own range), header codecs, 0x1F / 0xC0 wrappers parametric in their sub-codec contracts, registries, CRC by induction over the buffer. Error texts and a single zone name are proved for every length (symbolic-length UTF-8 buffer; > 255 bytes is refused, never truncated); version lists, multi-name messages and a few variable-length records use enumerated lengths and are labelled bounded.",
             "domain predicates valid(m) written in the contract files; str modelled by its UTF-8 bytes; bounded string lengths where labelled; composition of codec contracts with socket._write/_read_one_message contracts is by matching pre/postconditions."),
     "C04": ("proof", "Every public control call of both generations, for all admissible arguments (enum products, real-valued temperatures, all ability bitmaps): exactly one socket.send, and the payload produced by the real registry's encoder for that message, read with the vendor tables transcribed in the contract files, addresses the intended AC/zone, changes exactly the requested attribute and keeps every other; codec-level encoders additionally checked field by field against the vendor layout.",
@@ -27,17 +27,17 @@ CLAIMS = {
     "C06": ("proof", "Crc16Modbus.calculate equals the bitwise reference CRC-16/MODBUS for every buffer by induction over the real loop (loop invariant; table-vs-bitwise step lemma over bit-vectors with the 256-entry table read from the source), validate <=> equality, _read_one_message returns a frame only if the received check bytes equal the CRC of header span ++ payload, a failed frame is followed by reset_connection, plus lemmas on the reference (step injective, byte difference propagates, two-byte kernel).",
             "uninterpreted CRC function with definitional instances; burst/double-bit detection beyond two adjacent bytes is a property of the polynomial and only partly mechanised (thorough tier: affine lemma)."),
     "C07": ("proof", "Safety core as local contracts of every coroutine of socket.py under interference: _connect attempts only while open, closes a connection that completes after close()/another connect, retries after exactly 2.0 s, always starts the read loop on the connected path; _disconnect closes the connection it held before anything else runs; reset_connection disconnects then schedules one connect; _read/_drain/_connect/_disconnect let no exception out given the codec exception contracts; every failed frame resets.",
-            "liveness ('within bounded time once the network behaves') is an on-paper ranking argument over these step contracts; asyncio models; external cancellation excluded."),
+            "'at most one open connection, every abandoned one closed' is closed over histories by lemmas/Conn.lean (Lean 4) from the _connect / _disconnect contracts; liveness ('within bounded time once the network behaves') remains an on-paper ranking argument: out of reach of contracts; asyncio models (validated on samples, lib.* sets); external cancellation excluded."),
     "C08": ("proof", "Deadline invariant proved on the real _heartbeat_timeout_loop with a ghost clock: when == L + timeout at every wait (armed at (re)start and after every expiry, pushed back in the same step a response is seen), expiry resets iff connected, no other call site of reset_connection; one heartbeat per interval with RETRY_CONNECTED iff connected; defaults 300/330 s; start/stop idempotent.",
             "asyncio.timeout / Event.wait / gather modelled as in pyvc/aio.py (trusted)."),
     "C09": ("proof", "Transition contract of the real _message_received of both generations for every (state, frame shape, to-address) triple: next state, the single next request of the fixed order (version, names, abilities, AC status, timer status, zone status) sent with RETRY_CONNECTED after the state was advanced, the model update that receives the frame, completion effects (heartbeat start, AT4 poll task, initialised flag); every other pair changes nothing and sends nothing; AT5 echo rule only for to-address 0xB0. init(): subscriptions before open_socket, waits at most 5.0 s, returns the initialised flag, never raises. Model building (names, abilities incl. AT4 bitmap / single-AC / range fallbacks) on enumerated installations (bounded).",
             "that a console answering every request drives the six transitions is the environment's liveness; model building is enumerated over small installations (bounded stand-in); asyncio.wait_for model."),
     "C10": ("proof", "Every public getter of zone and AC objects of both generations equals the API reading of an arbitrary stored record (full enum products, no defined value raises), update_* stores the latest record for the matching id and refuses others, mode/fan selected-vs-active and mode-dependent limits as stated.",
-            "record domains = what the decoders can produce; translation of names between protocol and API enums transcribed in the contracts."),
+            "record domains = what the decoders can produce; translation of names between protocol and API enums transcribed in the contracts; 'after any sequence of frames the latest report wins' is lemmas/LastWriter.lean (Lean 4) over the dispatch / update step contracts."),
     "C11": ("proof", "Setters of both generations over all ability bitmaps, enum arguments, real temperatures, integer dampers, timer states: unsupported => ValueError and zero sends; supported => exactly one send; set-points rounded then clamped; timer commands carry the other timer as last reported.",
             "round() assumed correctly rounded (ties to even); console limits ordered."),
     "C12": ("proof", "update_* notify exactly the right subscriber set once with the entity id iff the record changed, zone changes reach the AC's general subscribers only, subscribe/unsubscribe are set operations, _notify_subscribers awaits every call once and isolates exceptions - for subscriber sets of arbitrary size (abstract sets).",
-            "subscriber model: async callables that may suspend/raise Exception; as_completed yields each awaitable once."),
+            "subscriber model: async callables that may suspend/raise Exception; as_completed yields each awaitable once (validated on samples); 'notified iff the step changes what the entity exposes' over histories is lemmas/LastWriter.lean."),
     "C13": ("proof", "_read_one_message touches the transport only through readexactly(header_length), readexactly(announced length), readexactly(2) on the reader current at entry, consecutive cursor; _read delivers exactly what it read.",
             "segmentation independence of StreamReader.readexactly itself is an assumed library contract; cursor lemma on paper."),
     "C14": ("proof", "_connection_changed(connected=True) outside the first handshake step sends AC-status then zone/group-status requests with RETRY_CONNECTED and keeps the state (all states), a disconnection sends nothing; the socket notifies connected=True before draining (socket._connect contract); AT4 _group_status_request_loop satisfies the same deadline invariant as the heartbeat with T = 300 s armed from the start and re-armed after every expiry, on expiry one GroupStatusRequest iff connected; the event is set only by group status in CONNECTED; unchanged data notifies nobody (update contracts).",
